@@ -82,6 +82,17 @@ def make_grid(spec):
         g = mixed_grid(spec["n"][0], spec["n"][1], spec["split"], spec.get("pert"))
         g.compute_geometry()
         return g
+    if kind == "prism":
+        # 3-D grid with MIXED FACE TYPES (triangles and quadrilaterals): a (possibly node-perturbed)
+        # triangle grid extruded along z; all faces stay planar
+        g2 = pp.StructuredTriangleGrid(np.array(spec["n"]))
+        if spec.get("pert"):
+            g2.nodes = g2.nodes.copy()
+            g2.nodes[:2] += np.array(spec["pert"], dtype=float) / 32.0
+        g2.compute_geometry()
+        g, _, _ = pp.grid_extrusion.extrude_grid(g2, np.array(spec["z"], dtype=float))
+        g.compute_geometry()
+        return g
     n = np.array(spec["n"])
     if kind == "cart":
         g = pp.CartGrid(n)
@@ -99,11 +110,18 @@ def make_grid(spec):
     return g
 
 
-def grid_spec(rng, tier, force_mixed=False):
+def grid_spec(rng, tier, force_mixed=False, force_prism=False):
     big = tier != "quick"
     r = rng.random()
     if force_mixed:
         r = 0.3
+    if force_prism or r > 0.95:
+        spec = {"kind": "prism", "n": rng.choice([[1, 1], [2, 1], [1, 2]] if big else [[1, 1], [1, 1], [2, 1]]),
+                "z": rng.choice([[0.0, 1.0], [0.0, 0.5], [0.0, 0.5, 1.5]] if big else [[0.0, 1.0], [0.0, 0.5]])}
+        if rng.random() < 0.5:
+            nn = (spec["n"][0] + 1) * (spec["n"][1] + 1)
+            spec["pert"] = [[rng.randint(-6, 6) for _ in range(nn)] for _ in range(2)]
+        return spec
     if r < 0.25:
         spec = {"kind": "cart", "n": [rng.randint(1, 3), rng.randint(1, 3)]}
     elif r < 0.45:
@@ -185,7 +203,8 @@ class C15(Prop):
                  "induction + ring) + certificate checkers evaluated by vm_compute on the real Biot "
                  "matrices and geometry + numpy oracle")
     rule = ("grids: CartGrid 2-D (<=3x3) and 3-D (<=2x2x2), grids MIXING triangles and quadrilaterals "
-            "(public pp.Grid constructor), discretised in 1, 2 or 3 subproblems (partition_arguments), "
+            "(public pp.Grid constructor), PRISM grids (triangle grid extruded along z: triangular and "
+            "quadrilateral faces in one 3-D grid), discretised in 1, 2 or 3 subproblems (partition_arguments), "
             "StructuredTriangleGrid, "
             "StructuredTetrahedralGrid, 55% with every node moved by a dyadic offset; Lame parameters "
             "and alpha (scalar, or a symmetric tensor in half of the cases) from dyadic sets; all-Dirichlet displacement boundary; linear field with small "
@@ -205,10 +224,10 @@ class C15(Prop):
         lams = [0.5, 1.0, 2.0, 0.25]
         alphas = [1.0, 0.5, 0.75, 2.0, 0.25]
         for idx in range(n):
-            # directed streams: every 4th case mixes cell types, every 2nd one is discretised in
-            # several subproblems
-            spec = grid_spec(rng, tier, force_mixed=(idx % 4 == 0))
-            nd = len(spec["n"])
+            # directed streams: every 4th case mixes cell types (2-D), every 6th one is a prism grid
+            # (3-D, mixed face types), every 2nd one is discretised in several subproblems
+            spec = grid_spec(rng, tier, force_mixed=(idx % 4 == 0), force_prism=(idx % 6 == 1))
+            nd = 3 if spec["kind"] == "prism" else len(spec["n"])
             A = [[rng.randint(-3, 3) for _ in range(nd)] for _ in range(nd)]
             if rng.random() < 0.15:
                 A = [[-A[j][i] if i != j else 0 for j in range(nd)] for i in range(nd)]  # rotation, div = 0
